@@ -198,3 +198,533 @@ theorem lineStringM_refines (zero : Pt α) (t : TF E α) (s : Slice) (m : Mem α
       · simp [hle] at h
 
 end GeomV.C10.Mem
+
+/-! ## the ring level: `Polygon.Transform` (and `(*Bounds).Transform`) -/
+namespace GeomV.C10.Mem
+open GeomV GeomV.C10
+variable {E α : Type}
+
+theorem set_append_last {β : Type} (l : List β) (a b : β) : (l ++ [a]).set l.length b = l ++ [b] := by
+  induction l with
+  | nil => rfl
+  | cons x xs ih => simp [ih]
+
+/-- explicit form of a successful `LineString.Transform` on memory: one new array holding the answer -/
+theorem lineStringM_success (zero : Pt α) (t : TF E α) (s : Slice) (m : Mem α) (ps qs : List (Pt α))
+    (h : readArr m.pts s = some ps) (hq : ptsT t ps = .ok qs) :
+    lineStringM zero t s m = ({ m with pts := m.pts ++ [qs] }, .ok ⟨m.pts.length, 0, s.len⟩) ∧ qs.length = s.len := by
+  unfold readArr at h
+  by_cases h0 : s.len = 0
+  · simp [h0] at h; subst h
+    simp [ptsT] at hq; subst hq
+    simp [lineStringM, aAlloc, h0, loopN]
+  · simp only [h0, if_false] at h
+    cases hsrc : m.pts[s.addr]? with
+    | none => simp [hsrc] at h
+    | some src =>
+      simp only [hsrc] at h
+      by_cases hle : s.off + s.len ≤ src.length
+      · simp only [hle, if_true] at h
+        cases h
+        have hslt : s.addr < m.pts.length := (List.getElem?_eq_some_iff.mp hsrc).1
+        have hs1 : (m.pts ++ [List.replicate s.len zero])[s.addr]? = some src := by
+          rw [List.getElem?_append_left hslt]; exact hsrc
+        have hd1 : (m.pts ++ [List.replicate s.len zero])[m.pts.length]? = some (List.replicate s.len zero) := by
+          simp
+        have key := loopN_pts t s m.pts.length s.len 0
+          { m with pts := m.pts ++ [List.replicate s.len zero] } src (List.replicate s.len zero)
+          hs1 hd1 (by omega) (by simp) (by omega)
+        simp only [Nat.add_zero, Nat.zero_add] at key
+        have hl := ptsT_length t _ qs hq
+        have hlen : qs.length = s.len := by rw [hl]; simp; omega
+        refine ⟨?_, hlen⟩
+        simp only [lineStringM, aAlloc]
+        rw [key.1 qs hq]
+        simp [set_append_last]
+      · simp [hle] at h
+
+theorem lineStringM_failure (zero : Pt α) (t : TF E α) (s : Slice) (m : Mem α) (ps : List (Pt α)) (e : Fail E)
+    (h : readArr m.pts s = some ps) (hq : ptsT t ps = .error e) :
+    (lineStringM zero t s m).2 = .error e :=
+  (lineStringM_refines zero t s m ps h).2 e hq
+
+theorem readArr_len {β : Type} (ar : List (List β)) (s : Slice) (x : List β) (h : readArr ar s = some x) :
+    x.length = s.len := by
+  unfold readArr at h
+  by_cases h0 : s.len = 0
+  · simp [h0] at h; subst h; simp [h0]
+  · simp only [h0, if_false] at h
+    cases ha : ar[s.addr]? with
+    | none => simp [ha] at h
+    | some a =>
+      simp only [ha] at h
+      by_cases hle : s.off + s.len ≤ a.length
+      · simp [hle] at h; subst h; simp; omega
+      · simp [hle] at h
+theorem readArr_prefix {β : Type} (ar ar' : List (List β)) (s : Slice) (x : List β)
+    (h : readArr ar s = some x) (hp : ar'.take ar.length = ar) : readArr ar' s = some x := by
+  unfold readArr at *
+  by_cases h0 : s.len = 0
+  · simpa [h0] using h
+  · simp only [h0, if_false] at h ⊢
+    cases ha : ar[s.addr]? with
+    | none => simp [ha] at h
+    | some a =>
+      have hlt : s.addr < ar.length := (List.getElem?_eq_some_iff.mp ha).1
+      have : ar'[s.addr]? = some a := by
+        have h2 : (ar'.take ar.length)[s.addr]? = some a := by rw [hp]; exact ha
+        rw [List.getElem?_take] at h2
+        simpa [hlt] using h2
+      simpa [this, ha] using h
+
+theorem mapM_readArr_prefix {β : Type} (ar ar' : List (List β)) (hs : List Slice) (xs : List (List β))
+    (h : hs.mapM (readArr ar) = some xs) (hp : ar'.take ar.length = ar) : hs.mapM (readArr ar') = some xs := by
+  induction hs generalizing xs with
+  | nil => simpa using h
+  | cons a as ih =>
+    simp only [List.mapM_cons, bind, Option.bind] at h ⊢
+    cases h1 : readArr ar a with
+    | none => simp [h1] at h
+    | some x =>
+      simp only [h1] at h
+      cases h2 : as.mapM (readArr ar) with
+      | none => simp [h2] at h
+      | some ys =>
+        simp [h2] at h
+        simp [readArr_prefix ar ar' a x h1 hp, ih ys h2, h]
+
+/-- headers the outer loop of `Polygon.Transform` stores: ring `j` of the result is the whole of the `j`-th
+array allocated by the call -/
+def hdrs (base : Nat) : List Slice → List Slice
+  | [] => []
+  | r :: rest => ⟨base, 0, r.len⟩ :: hdrs (base + 1) rest
+
+theorem ringBody_success (zero : Pt α) (t : TF E α) (s : Slice) (dst i : Nat) (m : Mem α)
+    (srcH dstArr : List Slice) (r : Slice) (ps qs : List (Pt α))
+    (hs : m.paths[s.addr]? = some srcH) (hr : srcH[s.off + i]? = some r) (hps : readArr m.pts r = some ps)
+    (hq : ptsT t ps = .ok qs) (hd : m.paths[dst]? = some dstArr) (hi : i < dstArr.length) :
+    ringBody zero t s dst i m =
+      ({ m with pts := m.pts ++ [qs], paths := m.paths.set dst (dstArr.set i ⟨m.pts.length, 0, r.len⟩) }, .ok ()) := by
+  have hget : aGet (E := E) m.paths s.addr (s.off + i) = .ok r := by simp [aGet, hs, hr]
+  have hset : aSet (E := E) m.paths dst i ⟨m.pts.length, 0, r.len⟩ =
+      .ok (m.paths.set dst (dstArr.set i ⟨m.pts.length, 0, r.len⟩)) := by simp [aSet, hd, hi]
+  have key := (lineStringM_success zero t r
+    { m with paths := m.paths.set dst (dstArr.set i ⟨m.pts.length, 0, r.len⟩) } ps qs hps hq).1
+  simp only [lineStringM, aAlloc] at key
+  simp only [ringBody, hget, aAlloc, hset]
+  generalize loopN (ptsBody t r m.pts.length) 0 r.len
+    { m with pts := m.pts ++ [List.replicate r.len zero],
+             paths := m.paths.set dst (dstArr.set i ⟨m.pts.length, 0, r.len⟩) } = res at key ⊢
+  obtain ⟨m2, rr⟩ := res
+  cases rr with
+  | error e => simp at key
+  | ok u => simp at key; simp [key]
+
+theorem ringBody_failure (zero : Pt α) (t : TF E α) (s : Slice) (dst i : Nat) (m : Mem α)
+    (srcH dstArr : List Slice) (r : Slice) (ps : List (Pt α)) (e : Fail E)
+    (hs : m.paths[s.addr]? = some srcH) (hr : srcH[s.off + i]? = some r) (hps : readArr m.pts r = some ps)
+    (hq : ptsT t ps = .error e) (hd : m.paths[dst]? = some dstArr) (hi : i < dstArr.length) :
+    (ringBody zero t s dst i m).2 = .error e := by
+  have hget : aGet (E := E) m.paths s.addr (s.off + i) = .ok r := by simp [aGet, hs, hr]
+  have hset : aSet (E := E) m.paths dst i ⟨m.pts.length, 0, r.len⟩ =
+      .ok (m.paths.set dst (dstArr.set i ⟨m.pts.length, 0, r.len⟩)) := by simp [aSet, hd, hi]
+  have key := lineStringM_failure zero t r
+    { m with paths := m.paths.set dst (dstArr.set i ⟨m.pts.length, 0, r.len⟩) } ps e hps hq
+  simp only [lineStringM, aAlloc] at key
+  simp only [ringBody, hget, aAlloc, hset]
+  generalize loopN (ptsBody t r m.pts.length) 0 r.len
+    { m with pts := m.pts ++ [List.replicate r.len zero],
+             paths := m.paths.set dst (dstArr.set i ⟨m.pts.length, 0, r.len⟩) } = res at key ⊢
+  obtain ⟨m2, rr⟩ := res
+  cases rr with
+  | error e' => simp at key; simp [key]
+  | ok u => simp at key
+
+/-- the loop `for i := range x { y[i] = header of a new array holding t(x[i]) }`, for any body that behaves
+like one iteration of the outer loop of `Polygon.Transform` or of the loop of `MultiLineString.Transform` -/
+theorem loopN_hdrLoop (t : TF E α) (s : Slice) (dst : Nat) (body : Nat → M E α Unit)
+    (hS : ∀ (i : Nat) (m : Mem α) (srcH dstArr : List Slice) (r : Slice) (ps qs : List (Pt α)),
+      m.paths[s.addr]? = some srcH → srcH[s.off + i]? = some r → readArr m.pts r = some ps →
+      ptsT t ps = .ok qs → m.paths[dst]? = some dstArr → i < dstArr.length →
+      body i m = ({ m with pts := m.pts ++ [qs],
+                           paths := m.paths.set dst (dstArr.set i ⟨m.pts.length, 0, r.len⟩) }, .ok ()))
+    (hF : ∀ (i : Nat) (m : Mem α) (srcH dstArr : List Slice) (r : Slice) (ps : List (Pt α)) (e : Fail E),
+      m.paths[s.addr]? = some srcH → srcH[s.off + i]? = some r → readArr m.pts r = some ps →
+      ptsT t ps = .error e → m.paths[dst]? = some dstArr → i < dstArr.length →
+      (body i m).2 = .error e) :
+    ∀ (n i : Nat) (m : Mem α) (srcH dstArr : List Slice) (rs : List (List (Pt α))),
+      m.paths[s.addr]? = some srcH → m.paths[dst]? = some dstArr → s.addr ≠ dst →
+      i + n ≤ dstArr.length → s.off + i + n ≤ srcH.length →
+      ((srcH.drop (s.off + i)).take n).mapM (readArr m.pts) = some rs →
+      (∀ qss, ringsT t rs = .ok qss →
+        loopN body i n m =
+          ({ m with pts := m.pts ++ qss,
+                    paths := m.paths.set dst (dstArr.take i ++ hdrs m.pts.length ((srcH.drop (s.off + i)).take n)
+                      ++ dstArr.drop (i + n)) }, .ok ())) ∧
+      (∀ e, ringsT t rs = .error e → (loopN body i n m).2 = .error e) := by
+  intro n
+  induction n with
+  | zero =>
+    intro i m srcH dstArr rs hs hd hne hi hsrc hrs
+    simp at hrs; subst hrs
+    refine ⟨?_, ?_⟩
+    · intro qss hq
+      simp [ringsT] at hq; subst hq
+      simp [loopN, hdrs, set_self_of_getElem? _ _ _ hd]
+    · intro e he; simp [ringsT] at he
+  | succ n ih =>
+    intro i m srcH dstArr rs hs hd hne hi hsrc hrs
+    have hk : s.off + i < srcH.length := by omega
+    have hp : srcH[s.off + i]? = some (srcH[s.off + i]'hk) := List.getElem?_eq_getElem hk
+    rw [drop_take_succ srcH (s.off + i) n _ hp] at hrs ⊢
+    generalize hrdef : srcH[s.off + i]'hk = r at hp hrs ⊢
+    simp only [List.mapM_cons, bind, Option.bind] at hrs
+    cases hps : readArr m.pts r with
+    | none => simp [hps] at hrs
+    | some ps =>
+      simp only [hps] at hrs
+      cases hrest : ((srcH.drop (s.off + i + 1)).take n).mapM (readArr m.pts) with
+      | none => simp [hrest] at hrs
+      | some rs' =>
+        simp [hrest] at hrs; subst hrs
+        have hil : i < dstArr.length := by omega
+        simp only [ringsT]
+        cases hq : ptsT t ps with
+        | error e0 =>
+          refine ⟨fun qss h => by simp at h, ?_⟩
+          intro e he
+          simp at he; subst he
+          have hb := hF i m srcH dstArr r ps e0 hs hp hps hq hd hil
+          unfold loopN
+          generalize body i m = res at hb ⊢
+          obtain ⟨m', rr⟩ := res
+          cases rr with
+          | error e' => simp at hb; simp [hb]
+          | ok u => simp at hb
+        | ok qs =>
+          have hb := hS i m srcH dstArr r ps qs hs hp hps hq hd hil
+          have hdlt : dst < m.paths.length := (List.getElem?_eq_some_iff.mp hd).1
+          have hs1 : (m.paths.set dst (dstArr.set i ⟨m.pts.length, 0, r.len⟩))[s.addr]? = some srcH := by
+            rw [List.getElem?_set_ne (Ne.symm hne)]; exact hs
+          have hd1 : (m.paths.set dst (dstArr.set i ⟨m.pts.length, 0, r.len⟩))[dst]? =
+              some (dstArr.set i ⟨m.pts.length, 0, r.len⟩) := by
+            simp [List.getElem?_set, hdlt]
+          have hrest1 : ((srcH.drop (s.off + (i + 1))).take n).mapM (readArr (m.pts ++ [qs])) = some rs' := by
+            have e : s.off + (i + 1) = s.off + i + 1 := by omega
+            rw [e]
+            exact mapM_readArr_prefix m.pts (m.pts ++ [qs]) _ rs' hrest (by simp)
+          have ih' := ih (i + 1)
+            { m with pts := m.pts ++ [qs], paths := m.paths.set dst (dstArr.set i ⟨m.pts.length, 0, r.len⟩) }
+            srcH (dstArr.set i ⟨m.pts.length, 0, r.len⟩) rs' hs1 hd1 hne (by simp; omega) (by omega) hrest1
+          have hoff : s.off + (i + 1) = s.off + i + 1 := by omega
+          rw [hoff] at ih'
+          refine ⟨?_, ?_⟩
+          · intro qss hqq
+            cases hr2 : ringsT t rs' with
+            | error e => simp [hr2] at hqq
+            | ok qss' =>
+              simp [hr2] at hqq; subst hqq
+              have := ih'.1 qss' hr2
+              simp only [loopN, hb]
+              rw [this]
+              simp only [List.set_set, take_set_succ dstArr i _ hil,
+                drop_set_gt dstArr i (i + 1 + n) _ (by omega), hdrs, List.length_append, List.length_cons,
+                List.length_nil]
+              have e1 : i + 1 + n = i + (n + 1) := by omega
+              simp [e1, List.append_assoc]
+          · intro e he
+            cases hr2 : ringsT t rs' with
+            | error e' =>
+              simp [hr2] at he; subst he
+              have := ih'.2 e' hr2
+              simp only [loopN, hb]
+              exact this
+            | ok r2 => simp [hr2] at he
+
+theorem loopN_rings (zero : Pt α) (t : TF E α) (s : Slice) (dst : Nat) :
+    ∀ (n i : Nat) (m : Mem α) (srcH dstArr : List Slice) (rs : List (List (Pt α))),
+      m.paths[s.addr]? = some srcH → m.paths[dst]? = some dstArr → s.addr ≠ dst →
+      i + n ≤ dstArr.length → s.off + i + n ≤ srcH.length →
+      ((srcH.drop (s.off + i)).take n).mapM (readArr m.pts) = some rs →
+      (∀ qss, ringsT t rs = .ok qss →
+        loopN (ringBody zero t s dst) i n m =
+          ({ m with pts := m.pts ++ qss,
+                    paths := m.paths.set dst (dstArr.take i ++ hdrs m.pts.length ((srcH.drop (s.off + i)).take n)
+                      ++ dstArr.drop (i + n)) }, .ok ())) ∧
+      (∀ e, ringsT t rs = .error e → (loopN (ringBody zero t s dst) i n m).2 = .error e) :=
+  loopN_hdrLoop t s dst (ringBody zero t s dst)
+    (fun i m srcH dstArr r ps qs a b c d e f => ringBody_success zero t s dst i m srcH dstArr r ps qs a b c d e f)
+    (fun i m srcH dstArr r ps e' a b c d e f => ringBody_failure zero t s dst i m srcH dstArr r ps e' a b c d e f)
+
+theorem hdrs_length (base : Nat) (hs : List Slice) : (hdrs base hs).length = hs.length := by
+  induction hs generalizing base with
+  | nil => rfl
+  | cons h t ih => simp [hdrs, ih]
+
+/-- the headers stored by the outer loop read, in the memory after the call, as the functional answer -/
+theorem hdrs_read {β : Type} (t : TF E α) (ar : List (List (Pt α))) :
+    ∀ (hs : List Slice) (rs qss pre : List (List (Pt α))),
+      hs.mapM (readArr ar) = some rs → ringsT t rs = .ok qss →
+      (hdrs pre.length hs).mapM (readArr (pre ++ qss)) = some qss := by
+  intro hs
+  induction hs with
+  | nil =>
+    intro rs qss pre h1 h2
+    simp at h1; subst h1
+    simp [ringsT] at h2; subst h2
+    simp [hdrs]
+  | cons h hs' ih =>
+    intro rs qss pre h1 h2
+    simp only [List.mapM_cons, bind, Option.bind] at h1
+    cases hx : readArr ar h with
+    | none => simp [hx] at h1
+    | some x =>
+      simp only [hx] at h1
+      cases hr : hs'.mapM (readArr ar) with
+      | none => simp [hr] at h1
+      | some rs' =>
+        simp [hr] at h1; subst h1
+        simp only [ringsT] at h2
+        cases hq : ptsT t x with
+        | error e => simp [hq] at h2
+        | ok q =>
+          simp only [hq] at h2
+          cases hq2 : ringsT t rs' with
+          | error e => simp [hq2] at h2
+          | ok qss' =>
+            simp [hq2] at h2; subst h2
+            have hxl := readArr_len ar h x hx
+            have hql : q.length = h.len := by rw [ptsT_length t x q hq, hxl]
+            have ih' := ih rs' qss' (pre ++ [q]) hr hq2
+            simp only [List.length_append, List.length_cons, List.length_nil, Nat.zero_add,
+              List.append_assoc, List.singleton_append] at ih'
+            have hhead : readArr (pre ++ q :: qss') ⟨pre.length, 0, h.len⟩ = some q := by
+              unfold readArr
+              by_cases h0 : h.len = 0
+              · have : q = [] := List.eq_nil_of_length_eq_zero (by omega)
+                simp [h0, this]
+              · simp [h0, hql]
+                exact List.take_of_length_le (by omega)
+            simp only [hdrs, List.mapM_cons, bind, Option.bind, hhead, ih']
+            rfl
+
+theorem polygonM_success (zero : Pt α) (t : TF E α) (s : Slice) (m : Mem α) (hs : List Slice)
+    (rs qss : List (List (Pt α)))
+    (h1 : readArr m.paths s = some hs) (h2 : hs.mapM (readArr m.pts) = some rs) (hq : ringsT t rs = .ok qss) :
+    polygonM zero t s m =
+      ({ m with pts := m.pts ++ qss, paths := m.paths ++ [hdrs m.pts.length hs] }, .ok ⟨m.paths.length, 0, s.len⟩) := by
+  unfold readArr at h1
+  by_cases h0 : s.len = 0
+  · simp [h0] at h1; subst h1
+    simp at h2; subst h2
+    simp [ringsT] at hq; subst hq
+    simp [polygonM, aAlloc, h0, loopN, hdrs]
+  · simp only [h0, if_false] at h1
+    cases hsrc : m.paths[s.addr]? with
+    | none => simp [hsrc] at h1
+    | some srcH =>
+      simp only [hsrc] at h1
+      by_cases hle : s.off + s.len ≤ srcH.length
+      · simp only [hle, if_true] at h1
+        cases h1
+        have hslt : s.addr < m.paths.length := (List.getElem?_eq_some_iff.mp hsrc).1
+        have hs1 : (m.paths ++ [List.replicate s.len zeroSlice])[s.addr]? = some srcH := by
+          rw [List.getElem?_append_left hslt]; exact hsrc
+        have hd1 : (m.paths ++ [List.replicate s.len zeroSlice])[m.paths.length]? =
+            some (List.replicate s.len zeroSlice) := by simp
+        have key := loopN_rings zero t s m.paths.length s.len 0
+          { m with paths := m.paths ++ [List.replicate s.len zeroSlice] } srcH (List.replicate s.len zeroSlice) rs
+          hs1 hd1 (by omega) (by simp) (by omega) (by simpa using h2)
+        simp only [Nat.add_zero, Nat.zero_add] at key
+        simp only [polygonM, aAlloc]
+        rw [key.1 qss hq]
+        simp [set_append_last]
+      · simp [hle] at h1
+
+theorem polygonM_failure (zero : Pt α) (t : TF E α) (s : Slice) (m : Mem α) (hs : List Slice)
+    (rs : List (List (Pt α))) (e : Fail E)
+    (h1 : readArr m.paths s = some hs) (h2 : hs.mapM (readArr m.pts) = some rs) (hq : ringsT t rs = .error e) :
+    (polygonM zero t s m).2 = .error e := by
+  unfold readArr at h1
+  by_cases h0 : s.len = 0
+  · simp [h0] at h1; subst h1
+    simp at h2; subst h2
+    simp [ringsT] at hq
+  · simp only [h0, if_false] at h1
+    cases hsrc : m.paths[s.addr]? with
+    | none => simp [hsrc] at h1
+    | some srcH =>
+      simp only [hsrc] at h1
+      by_cases hle : s.off + s.len ≤ srcH.length
+      · simp only [hle, if_true] at h1
+        cases h1
+        have hslt : s.addr < m.paths.length := (List.getElem?_eq_some_iff.mp hsrc).1
+        have hs1 : (m.paths ++ [List.replicate s.len zeroSlice])[s.addr]? = some srcH := by
+          rw [List.getElem?_append_left hslt]; exact hsrc
+        have hd1 : (m.paths ++ [List.replicate s.len zeroSlice])[m.paths.length]? =
+            some (List.replicate s.len zeroSlice) := by simp
+        have key := loopN_rings zero t s m.paths.length s.len 0
+          { m with paths := m.paths ++ [List.replicate s.len zeroSlice] } srcH (List.replicate s.len zeroSlice) rs
+          hs1 hd1 (by omega) (by simp) (by omega) (by simpa using h2)
+        simp only [Nat.add_zero, Nat.zero_add] at key
+        have := key.2 e hq
+        simp only [polygonM, aAlloc]
+        generalize loopN (ringBody zero t s m.paths.length) 0 s.len
+          { m with paths := m.paths ++ [List.replicate s.len zeroSlice] } = res at this ⊢
+        obtain ⟨m2, rr⟩ := res
+        cases rr with
+        | error e' => simp at this; simp [this]
+        | ok u => simp at this
+      · simp [hle] at h1
+
+/-- a successful `Polygon.Transform` on memory returns a header that reads, in the memory after the call, as
+the functional model's rings -/
+theorem polygonM_decodes (zero : Pt α) (t : TF E α) (s : Slice) (m : Mem α) (hs : List Slice)
+    (rs qss : List (List (Pt α)))
+    (h1 : readArr m.paths s = some hs) (h2 : hs.mapM (readArr m.pts) = some rs) (hq : ringsT t rs = .ok qss) :
+    ∃ hd hs', (polygonM zero t s m).2 = .ok hd ∧ readArr (polygonM zero t s m).1.paths hd = some hs' ∧
+      hs'.mapM (readArr (polygonM zero t s m).1.pts) = some qss := by
+  rw [polygonM_success zero t s m hs rs qss h1 h2 hq]
+  refine ⟨_, hdrs m.pts.length hs, rfl, ?_, ?_⟩
+  · have hl : hs.length = s.len := readArr_len _ _ _ h1
+    unfold readArr
+    by_cases h0 : s.len = 0
+    · have : hs = [] := List.eq_nil_of_length_eq_zero (by omega)
+      simp [h0, this, hdrs]
+    · simp [h0, hdrs_length, hl]
+      exact List.take_of_length_le (by simp [hdrs_length, hl])
+  · exact hdrs_read (β := Nat) t m.pts hs rs qss m.pts h2 hq
+
+
+/-! ## `MultiLineString.Transform`: same loop shape (the header is stored after the line is filled) -/
+
+theorem mlsBody_success (zero : Pt α) (t : TF E α) (s : Slice) (dst i : Nat) (m : Mem α)
+    (srcH dstArr : List Slice) (r : Slice) (ps qs : List (Pt α))
+    (hs : m.paths[s.addr]? = some srcH) (hr : srcH[s.off + i]? = some r) (hps : readArr m.pts r = some ps)
+    (hq : ptsT t ps = .ok qs) (hd : m.paths[dst]? = some dstArr) (hi : i < dstArr.length) :
+    mlsBody zero t s dst i m =
+      ({ m with pts := m.pts ++ [qs], paths := m.paths.set dst (dstArr.set i ⟨m.pts.length, 0, r.len⟩) }, .ok ()) := by
+  have hget : aGet (E := E) m.paths s.addr (s.off + i) = .ok r := by simp [aGet, hs, hr]
+  have hset : aSet (E := E) m.paths dst i ⟨m.pts.length, 0, r.len⟩ =
+      .ok (m.paths.set dst (dstArr.set i ⟨m.pts.length, 0, r.len⟩)) := by simp [aSet, hd, hi]
+  have key := (lineStringM_success zero t r m ps qs hps hq).1
+  simp [mlsBody, hget, key, hset]
+
+theorem mlsBody_failure (zero : Pt α) (t : TF E α) (s : Slice) (dst i : Nat) (m : Mem α)
+    (srcH dstArr : List Slice) (r : Slice) (ps : List (Pt α)) (e : Fail E)
+    (hs : m.paths[s.addr]? = some srcH) (hr : srcH[s.off + i]? = some r) (hps : readArr m.pts r = some ps)
+    (hq : ptsT t ps = .error e) (hd : m.paths[dst]? = some dstArr) (hi : i < dstArr.length) :
+    (mlsBody zero t s dst i m).2 = .error e := by
+  have hget : aGet (E := E) m.paths s.addr (s.off + i) = .ok r := by simp [aGet, hs, hr]
+  have key := lineStringM_failure zero t r m ps e hps hq
+  simp only [mlsBody, hget]
+  generalize lineStringM zero t r m = res at key ⊢
+  obtain ⟨m2, rr⟩ := res
+  cases rr with
+  | error e' => simp at key; simp [key]
+  | ok u => simp at key
+
+theorem loopN_lines (zero : Pt α) (t : TF E α) (s : Slice) (dst : Nat) :
+    ∀ (n i : Nat) (m : Mem α) (srcH dstArr : List Slice) (rs : List (List (Pt α))),
+      m.paths[s.addr]? = some srcH → m.paths[dst]? = some dstArr → s.addr ≠ dst →
+      i + n ≤ dstArr.length → s.off + i + n ≤ srcH.length →
+      ((srcH.drop (s.off + i)).take n).mapM (readArr m.pts) = some rs →
+      (∀ qss, ringsT t rs = .ok qss →
+        loopN (mlsBody zero t s dst) i n m =
+          ({ m with pts := m.pts ++ qss,
+                    paths := m.paths.set dst (dstArr.take i ++ hdrs m.pts.length ((srcH.drop (s.off + i)).take n)
+                      ++ dstArr.drop (i + n)) }, .ok ())) ∧
+      (∀ e, ringsT t rs = .error e → (loopN (mlsBody zero t s dst) i n m).2 = .error e) :=
+  loopN_hdrLoop t s dst (mlsBody zero t s dst)
+    (fun i m srcH dstArr r ps qs a b c d e f => mlsBody_success zero t s dst i m srcH dstArr r ps qs a b c d e f)
+    (fun i m srcH dstArr r ps e' a b c d e f => mlsBody_failure zero t s dst i m srcH dstArr r ps e' a b c d e f)
+
+theorem multiLineM_success (zero : Pt α) (t : TF E α) (s : Slice) (m : Mem α) (hs : List Slice)
+    (rs qss : List (List (Pt α)))
+    (h1 : readArr m.paths s = some hs) (h2 : hs.mapM (readArr m.pts) = some rs) (hq : ringsT t rs = .ok qss) :
+    multiLineM zero t s m =
+      ({ m with pts := m.pts ++ qss, paths := m.paths ++ [hdrs m.pts.length hs] }, .ok ⟨m.paths.length, 0, s.len⟩) := by
+  unfold readArr at h1
+  by_cases h0 : s.len = 0
+  · simp [h0] at h1; subst h1
+    simp at h2; subst h2
+    simp [ringsT] at hq; subst hq
+    simp [multiLineM, aAlloc, h0, loopN, hdrs]
+  · simp only [h0, if_false] at h1
+    cases hsrc : m.paths[s.addr]? with
+    | none => simp [hsrc] at h1
+    | some srcH =>
+      simp only [hsrc] at h1
+      by_cases hle : s.off + s.len ≤ srcH.length
+      · simp only [hle, if_true] at h1
+        cases h1
+        have hslt : s.addr < m.paths.length := (List.getElem?_eq_some_iff.mp hsrc).1
+        have hs1 : (m.paths ++ [List.replicate s.len zeroSlice])[s.addr]? = some srcH := by
+          rw [List.getElem?_append_left hslt]; exact hsrc
+        have hd1 : (m.paths ++ [List.replicate s.len zeroSlice])[m.paths.length]? =
+            some (List.replicate s.len zeroSlice) := by simp
+        have key := loopN_lines zero t s m.paths.length s.len 0
+          { m with paths := m.paths ++ [List.replicate s.len zeroSlice] } srcH (List.replicate s.len zeroSlice) rs
+          hs1 hd1 (by omega) (by simp) (by omega) (by simpa using h2)
+        simp only [Nat.add_zero, Nat.zero_add] at key
+        simp only [multiLineM, aAlloc]
+        rw [key.1 qss hq]
+        simp [set_append_last]
+      · simp [hle] at h1
+
+theorem multiLineM_failure (zero : Pt α) (t : TF E α) (s : Slice) (m : Mem α) (hs : List Slice)
+    (rs : List (List (Pt α))) (e : Fail E)
+    (h1 : readArr m.paths s = some hs) (h2 : hs.mapM (readArr m.pts) = some rs) (hq : ringsT t rs = .error e) :
+    (multiLineM zero t s m).2 = .error e := by
+  unfold readArr at h1
+  by_cases h0 : s.len = 0
+  · simp [h0] at h1; subst h1
+    simp at h2; subst h2
+    simp [ringsT] at hq
+  · simp only [h0, if_false] at h1
+    cases hsrc : m.paths[s.addr]? with
+    | none => simp [hsrc] at h1
+    | some srcH =>
+      simp only [hsrc] at h1
+      by_cases hle : s.off + s.len ≤ srcH.length
+      · simp only [hle, if_true] at h1
+        cases h1
+        have hslt : s.addr < m.paths.length := (List.getElem?_eq_some_iff.mp hsrc).1
+        have hs1 : (m.paths ++ [List.replicate s.len zeroSlice])[s.addr]? = some srcH := by
+          rw [List.getElem?_append_left hslt]; exact hsrc
+        have hd1 : (m.paths ++ [List.replicate s.len zeroSlice])[m.paths.length]? =
+            some (List.replicate s.len zeroSlice) := by simp
+        have key := loopN_lines zero t s m.paths.length s.len 0
+          { m with paths := m.paths ++ [List.replicate s.len zeroSlice] } srcH (List.replicate s.len zeroSlice) rs
+          hs1 hd1 (by omega) (by simp) (by omega) (by simpa using h2)
+        simp only [Nat.add_zero, Nat.zero_add] at key
+        have := key.2 e hq
+        simp only [multiLineM, aAlloc]
+        generalize loopN (mlsBody zero t s m.paths.length) 0 s.len
+          { m with paths := m.paths ++ [List.replicate s.len zeroSlice] } = res at this ⊢
+        obtain ⟨m2, rr⟩ := res
+        cases rr with
+        | error e' => simp at this; simp [this]
+        | ok u => simp at this
+      · simp [hle] at h1
+
+/-- a successful `MultiLineString.Transform` on memory returns a header that reads, in the memory after the call, as
+the functional model's rings -/
+theorem multiLineM_decodes (zero : Pt α) (t : TF E α) (s : Slice) (m : Mem α) (hs : List Slice)
+    (rs qss : List (List (Pt α)))
+    (h1 : readArr m.paths s = some hs) (h2 : hs.mapM (readArr m.pts) = some rs) (hq : ringsT t rs = .ok qss) :
+    ∃ hd hs', (multiLineM zero t s m).2 = .ok hd ∧ readArr (multiLineM zero t s m).1.paths hd = some hs' ∧
+      hs'.mapM (readArr (multiLineM zero t s m).1.pts) = some qss := by
+  rw [multiLineM_success zero t s m hs rs qss h1 h2 hq]
+  refine ⟨_, hdrs m.pts.length hs, rfl, ?_, ?_⟩
+  · have hl : hs.length = s.len := readArr_len _ _ _ h1
+    unfold readArr
+    by_cases h0 : s.len = 0
+    · have : hs = [] := List.eq_nil_of_length_eq_zero (by omega)
+      simp [h0, this, hdrs]
+    · simp [h0, hdrs_length, hl]
+      exact List.take_of_length_le (by simp [hdrs_length, hl])
+  · exact hdrs_read (β := Nat) t m.pts hs rs qss m.pts h2 hq
+
+
+end GeomV.C10.Mem
